@@ -148,9 +148,9 @@ check_equal(tsk_table_collection_t *a, tsk_table_collection_t *b)
 int
 main_c05(void)
 {
-    tsk_table_collection_t t, u, t2, c;
+    tsk_table_collection_t t, u, t2, c, first;
     int ret, variant = sym_choice("variant", 0, 7);
-    FILE *f = sym_file_new();
+    FILE *f = sym_file_new(), *f0 = f;
 
     ret = tsk_table_collection_init(&t, 0);
     sym_assume(ret == 0);
@@ -193,6 +193,35 @@ main_c05(void)
     ret = tsk_table_collection_loadf(&t2, f, 0);
     sym_assert(ret == TSK_ERR_EOF, "end of stream is signalled by TSK_ERR_EOF");
     tsk_table_collection_free(&t2);
+    /* two loaded copies of the same stored object (same file uuid) stay ordinary mutable collections: equality is
+     * decided by the data, also after one of them has been edited */
+    sym_file_rewind(f0);
+    ret = tsk_table_collection_loadf(&first, f0, 0);
+    sym_assert(ret == 0, "first object loads again after rewinding");
+    sym_file_rewind(f0);
+    ret = tsk_table_collection_loadf(&t2, f0, 0);
+    sym_assert(ret == 0, "and once more");
+    sym_assert(tsk_table_collection_equals(&first, &t2, 0), "two loads of the same object are equal");
+    switch (sym_choice("edit", 0, 2)) {
+        case 0:
+            t2.sequence_length += 1;
+            sym_assert(!tsk_table_collection_equals(&first, &t2, 0), "an edited copy differs (sequence length)");
+            break;
+        case 1:
+            tsk_node_table_add_row(&t2.nodes, 0, 0, -1, -1, NULL, 0);
+            sym_assert(!tsk_table_collection_equals(&first, &t2, 0), "an edited copy differs (node row)");
+            sym_assert(!tsk_table_collection_equals(&first, &t2, TSK_CMP_IGNORE_METADATA | TSK_CMP_IGNORE_PROVENANCE),
+                "an edited copy differs under ignore options that do not cover the edit");
+            break;
+        default:
+            ret = tsk_table_collection_set_metadata(&t2, "xyz", 3);
+            sym_assume(ret == 0);
+            sym_assert(!tsk_table_collection_equals(&first, &t2, 0), "an edited copy differs (top-level metadata)");
+            sym_assert(tsk_table_collection_equals(&first, &t2, TSK_CMP_IGNORE_TS_METADATA), "and is equal when that is ignored");
+            break;
+    }
+    tsk_table_collection_free(&t2);
+    tsk_table_collection_free(&first);
     tsk_table_collection_free(&t);
     tsk_table_collection_free(&u);
     tsk_table_collection_free(&c);
